@@ -168,8 +168,12 @@ def models():
             m = J2Plastic.create_material_model_functions({'elastic modulus': E_MOD, 'poisson ratio': NU, 'yield strength': 1e9,
                                                            'hardening model': 'linear', 'hardening modulus': 1.0, 'kinematics': kin})
             st = np.ravel(m.compute_initial_state())
-            out['J2Plastic/' + kin] = dict(f=(lambda H, m=m, st=st: m.compute_energy_density(H, st, DT)), finite=(kin == 'large deformations'),
+            out['J2Plastic/' + kin] = dict(f=(lambda H, m=m, st=st: m.compute_energy_density(H, st, DT)), finite=(kin != 'small deformations'),
                                            model=m)
+        for kin in ('large deformations', 'seth hill'):
+            m = J2Plastic.create_material_model_functions({'elastic modulus': E_MOD, 'poisson ratio': NU, 'yield strength': 0.02 * E_MOD,
+                                                           'hardening model': 'linear', 'hardening modulus': 0.1 * E_MOD, 'kinematics': kin})
+            out['J2Plastic/' + kin]['yielding'] = m
         m = HyperViscoelastic.create_material_model_functions({'equilibrium bulk modulus': HV_PROPS[0], 'equilibrium shear modulus': HV_PROPS[1],
                                                                'non equilibrium shear modulus': HV_PROPS[2], 'relaxation time': HV_PROPS[3]})
         st = m.compute_initial_state()
@@ -281,6 +285,106 @@ def check_invariance(ctx, cases, batch):
                                   what='%s [%s]: Kirchhoff stress dW/dH F^T is not symmetric: max asymmetry %.3g' % (name, kind, asym),
                                   case=dict(model=name, check='kirchhoff', H=H, Q=Q, batch=batch, value=asym)))
     return fails
+
+
+STATEFUL = ('J2Plastic/large deformations', 'J2Plastic/seth hill', 'HyperViscoelastic', 'MultiBranchHyperViscoelastic')
+
+
+def rot_state(name, st, Q):
+    """internal state of `name` after a rotation Q of the reference configuration (tensors T -> Q^T T Q, scalars unchanged)"""
+    import numpy as onp
+    st = onp.array(st, dtype=float)
+    Qn = onp.array(Q)
+    rt = lambda T: (Qn.T @ T.reshape(3, 3) @ Qn).ravel()
+    if name.startswith('J2Plastic'):
+        return onp.hstack((st[0], rt(st[1:10])))
+    return onp.hstack([rt(st[9 * b:9 * b + 9]) for b in range(len(st) // 9)])
+
+
+def check_state_invariance(ctx, cases, batch):
+    """the elastic regime of the plastic and viscous models with NON-VIRGIN internal states: (i) random admissible states,
+    (ii) states produced by the model's own compute_state_new along a non-coaxial loading step.  Objectivity (state unchanged),
+    isotropy (state rotated with the reference), Kirchhoff-stress symmetry, and rotation-independence of the state update."""
+    import jax
+    import jax.numpy as np
+    import numpy as onp
+    fails = []
+    r = ctx.rng('state' + ('b' if batch else 's'))
+    M = models()
+    for name in STATEFUL:
+        md = M[name]
+        m = md['model']
+        en = m.compute_energy_density
+        upd = md.get('yielding', m).compute_state_new
+        Hs, Qs, H1s, sts, kinds = [], [], [], [], []
+        for (H, kind, Q) in cases:
+            G, _ = gen_H(r)
+            sc = 0.25 * r.uniform(0.05, 1) / max(fro(G), 1e-30)
+            T = onp.eye(3) + sc * onp.array(G)
+            if name.startswith('J2Plastic'):
+                T = T / onp.cbrt(onp.linalg.det(T)) if 'large' in name else 0.5 * (T + T.T) - onp.eye(3)
+                st = onp.hstack((r.uniform(0, 0.1), T.ravel()))
+            elif name == 'HyperViscoelastic':
+                st = (T / onp.cbrt(onp.linalg.det(T))).ravel()
+            else:
+                G2, _ = gen_H(r)
+                T2 = onp.eye(3) + 0.2 * onp.array(G2) / max(fro(G2), 1e-30)
+                st = onp.hstack(((T / onp.cbrt(onp.linalg.det(T))).ravel(), onp.eye(3).ravel(), (T2 / onp.cbrt(onp.linalg.det(T2))).ravel()))
+            H1, _ = gen_H(r)
+            while stretch_gap(H1) < 1e-3 * max(fro(H1), 1e-30):
+                H1, _ = gen_H(r)
+            H1 = (onp.array(H1) * (0.15 / max(fro(H1), 1e-30) if fro(H1) < 0.15 else 1.0)).tolist()     # a loading step that does something
+            Hs.append(H); Qs.append(Q); H1s.append(H1); sts.append(st); kinds.append(kind)
+        Hs_, H1s_, sts_ = np.array(Hs), np.array(H1s), np.array(sts)
+        HL = np.array([rotL(q, h) for q, h in zip(Qs, Hs)])
+        HR = np.array([rotR(q, h) for q, h in zip(Qs, Hs)])
+        H1L = np.array([rotL(q, h) for q, h in zip(Qs, H1s)])
+        stR = np.array([rot_state(name, st, q) for st, q in zip(sts, Qs)])
+        st0 = np.array([onp.ravel(onp.array(m.compute_initial_state())) for _ in cases])
+        if batch:
+            ev = jax.jit(jax.vmap(lambda h, st: en(h, st, DT)))
+            gv = jax.jit(jax.vmap(jax.grad(lambda h, st: en(h, st, DT))))
+            uv = jax.jit(jax.vmap(lambda h, st: upd(h, st, DT)))
+        else:
+            e1, g1, u1 = jax.jit(lambda h, st: en(h, st, DT)), jax.jit(jax.grad(lambda h, st: en(h, st, DT))), jax.jit(lambda h, st: upd(h, st, DT))
+            ev = lambda A, B: np.array([e1(a, b) for a, b in zip(A, B)])
+            gv = lambda A, B: np.array([g1(a, b) for a, b in zip(A, B)])
+            uv = lambda A, B: np.array([u1(a, b) for a, b in zip(A, B)])
+        # (ii) states from a loading step, and the same step seen by a rotated observer
+        stH = uv(H1s_, st0)
+        stHL = uv(H1L, st0)
+        for label, S, SR in (('random state', sts_, stR), ('state after a non-coaxial loading step', stH, None)):
+            if SR is None:
+                SR = np.array([rot_state(name, st, q) for st, q in zip(onp.array(S), Qs)])
+            e0, eL, eR = onp.array(ev(Hs_, S)), onp.array(ev(HL, S)), onp.array(ev(HR, SR))
+            P = onp.array(gv(Hs_, S))
+            for i in range(len(cases)):
+                t = 4 * tol_energy(Hs[i], e0[i])
+                ctx.count('invariance_checks', 3)
+                base = dict(model=name, H=Hs[i], Q=Qs[i], batch=batch, state=[float(x) for x in onp.array(S[i])], state_kind=label)
+                for lab, evv in (('objectivity', eL[i]), ('isotropy', eR[i])):
+                    if not abs(evv - e0[i]) <= t:
+                        fails.append(dict(kind='conclusion', concrete=True,
+                                          what='%s [%s, %s, %s]: %s violated with a non-virgin internal state: energy %r -> %r (tol %.3g)'
+                                          % (name, kinds[i], label, 'vmap+jit' if batch else 'single', lab, float(e0[i]), float(evv), t),
+                                          case=dict(base, check=lab, e0=float(e0[i]), e1=float(evv))))
+                F = onp.array(Hs[i]) + onp.eye(3)
+                tau = P[i] @ F.T
+                asym = float(onp.max(onp.abs(tau - tau.T)))
+                if not asym <= 4e-13 * 4 * E_MOD * (1 + fro(Hs[i])) ** 2:
+                    fails.append(dict(kind='conclusion', concrete=True,
+                                      what='%s [%s, %s]: Kirchhoff stress not symmetric with a non-virgin state: max asymmetry %.3g' % (name, kinds[i], label, asym),
+                                      case=dict(base, check='kirchhoff', value=asym)))
+        # the updated (reference-configuration) state must not depend on the observer
+        dS = onp.abs(onp.array(stH) - onp.array(stHL)).max(axis=1)
+        for i in range(len(cases)):
+            ctx.count('invariance_checks')
+            if not dS[i] <= 1e-10:
+                fails.append(dict(kind='conclusion', concrete=True,
+                                  what='%s: compute_state_new depends on a superposed rotation of the loading step: max state difference %.3g' % (name, float(dS[i])),
+                                  case=dict(model=name, check='objectivity', state_update=True, H=H1s[i], Q=Qs[i], batch=batch, e0=0.0, e1=float(dS[i]))))
+    return fails
+
 
 
 def check_pf_gradient(ctx, cases):
@@ -440,6 +544,8 @@ def correspondence(ctx, model_ok):
     fails = check_rest(ctx)
     fails += check_invariance(ctx, cases, batch=True)
     fails += check_invariance(ctx, cases[: ctx.n(6, 40)], batch=False)
+    fails += check_state_invariance(ctx, cases[: ctx.n(12, 80)], batch=True)
+    fails += check_state_invariance(ctx, cases[: ctx.n(3, 12)], batch=False)
     fails += check_pf_gradient(ctx, cases[: ctx.n(10, 100)])
     nfin = sum(1 for m in models().values() if m['finite'])
     ctx.count('evaluations', len(cases) * nfin * 3 + 2 * len(models()))
@@ -466,6 +572,7 @@ def search(ctx, reasons):
     fails = check_rest(c2)
     cases = l2_cases(c2, 300)
     fails += check_invariance(c2, cases, batch=True)
+    fails += check_state_invariance(c2, cases[:60], batch=False)
     fails += check_pf_gradient(c2, cases[:60])
     known = [f for f in C.load_known_findings() if f['property'] == ID and f['status'] == 'open']
     for f in fails:
@@ -491,6 +598,16 @@ def finding_fails(ctx, f):
     if f['id'] == 'F4':
         # fixed in /repo 60fe5f7: does the rest state of the J2 'seth hill' option still have non-zero energy or stress?
         return bool(check_rest(ctx, names=[w['model']]))
+    if f['id'] == 'EIGVMAP-SH':
+        import jax
+        import jax.numpy as np
+        md = models()[w['model']]
+        for Hm in (w['H'], rotR(w['Q'], w['H'])):
+            eb = float(jax.jit(jax.vmap(md['f']))(np.array([Hm, Hm]))[0])
+            es = float(md['jf'](np.array(Hm)))
+            if abs(eb - es) > 1e-6 * abs(es):
+                return True
+        return False
     if f['id'] == 'EIGVMAP':
         # the same state evaluated in a compiled batch of two and as a single compiled call
         import jax
@@ -509,6 +626,16 @@ def matches_finding(fl, f):
     F4 (fixed): rest-state energy (= 18 kappa) or NaN rest-state stress of J2 'seth hill'."""
     c = fl.get('case') or {}
     w = f['witness']
+    if f['id'] == 'EIGVMAP-SH':
+        # only the Seth-Hill J2 model, only in compiled batches, only at doubly degenerate F^T F, virgin state, error <= 5e-2 relative
+        if not (c.get('batch') and c.get('model') == 'J2Plastic/seth hill' and c.get('check') in ('objectivity', 'isotropy', 'kirchhoff')
+                and 'state' not in c and not c.get('state_update')):
+            return False
+        if stretch_gap(c['H']) > 1e-9:
+            return False
+        if c['check'] == 'kirchhoff':
+            return c.get('value', 1.0) <= 1e-3 * E_MOD
+        return abs(c['e1'] - c['e0']) <= 5e-2 * abs(c['e0'])
     if f['id'] == 'EIGVMAP':
         if not (c.get('batch') and c.get('model') in SPECTRAL and c.get('check') in ('objectivity', 'isotropy', 'kirchhoff')):
             return False
